@@ -14,7 +14,8 @@ RULE = ("data widths {16,32,64,128}, id widths 1..4, buffer depths {2,4,16}, bas
         "channel or port handshake in the cycle; distinct by (run, cycle)")
 TRUSTED = ["native-side stub written from core/crossbar.py, not the real controller",
            "the master avoids read/write hazards (no read of a word with an unanswered write, no write to a word with a read in flight), so the specification is sequential"]
-ASSUMPTIONS = ["AXI master: valid held until ready, W beats in AW order, addresses >= base_address and inside the memory, WRAP bursts aligned with 2/4/8/16 beats, strobes only in the active byte lanes",
+ASSUMPTIONS = ["native side: the wdata.ready strobe of a write comes at least one cycle after its command was accepted (as in the crossbar); in the very same cycle the burst's ID is not yet queued when its response is formed",
+               "AXI master: valid held until ready, W beats in AW order, addresses >= base_address and inside the memory, WRAP bursts aligned with 2/4/8/16 beats, strobes only in the active byte lanes",
                "read-modify-write mode: the cycle-exact model covers the regular datapath; RMW runs are judged by the specifications only"]
 
 
